@@ -45,4 +45,19 @@ REGISTRY = {
         "level_note": "Trusted: Coq kernel/vm_compute, hand-written model (checked by correspondence), harness; read_until/read_line/seek and the csv record parser are assumed, not verified. No axioms.",
         "explanation": "Theorems C15_* proved for all inputs; correspondence on 10 integer types, files and csv inputs.",
     },
+    "C17": {
+        "corr": "C17",
+        "classes": {1: "F1"},
+        "trusted": [
+            "modelled: WatermarkFrontier (new/update/reset/compute_frontier) and Start::next over a SimpleStartReceiver as a push machine over the arrival sequence; the specification machine ispec_machine (active minimum) is hand-written",
+            "not modelled: receive time-outs (FlushBatch injection; stripped before comparing), the iteration state lock",
+        ],
+        "assumptions": [
+            "watermark values below Timestamp::MAX; sender indices below the number of upstream replicas",
+            "arrival order at a Start = order of the batches in its single input channel (flume FIFO, assumed)",
+        ],
+        "level_text": "Proof: the watermark frontier and Start are modelled as a machine over arbitrary arrival interleavings; the full progress statement is refuted by a concrete history (known finding F1) and proved for every arrival sequence outside that class (no replica end raises the active minimum). Tied to the code by driving the real Start (hook: hand-driven network) with explicit arrival orders and comparing inside Coq.",
+        "level_note": "Trusted: Coq kernel/vm_compute, hand-written model and specification machine (model checked by correspondence), harness; flume FIFO assumed. Known finding F1 is reported as KNOWN-FINDING only when the faithful model reproduces it exactly. No axioms.",
+        "explanation": "C17_progress_outside_known_class proved for all n and arrival sequences; C17_progress_refuted is the F1 witness.",
+    },
 }
